@@ -393,7 +393,7 @@ theorem closeSettlement_inv {s s' : State} {p : Plan} {moves : List (Addr × Coi
           rw [← h]
           simpa [hold, bal] using this
         · rw [← h, e3, e1]
-          exact hi.wf.of_subset (deleteAll_sublist _ _) (Nat.le_refl _) (fun c hc => hc) (List.Sublist.refl _)
+          exact hi.wf.of_subset (deleteAll_sublist _ _) (Nat.le_refl _) (List.Sublist.refl _) (List.Sublist.refl _)
     | some pr =>
       obtain ⟨fl, left⟩ := pr
       simp only [hpart] at h
@@ -465,6 +465,7 @@ theorem closeSettlement_inv {s s' : State} {p : Plan} {moves : List (Addr × Coi
               rw [ids_setOrder_some hgo]
               exact hi.wf.idsNodup
             · exact hi.wf.commits
+            · exact hi.wf.ckeys
             · exact hi.wf.pays
             · exact hi.wf.keys
 end PvProofs.Exhold
